@@ -91,3 +91,13 @@ Proof. reflexivity. Qed.
 Lemma skel_GetOpInfluence_ok : skel_oc_GetOpInfluence =
   [RLock "oc"; DeferRUnlock "oc"; ForE [Call "CheckTimeout"; Call "CheckSuccess"; IfE "!each#v(oc.operators).CheckTimeout() && !each#v(oc.operators).CheckSuccess()" [Call "GetRegion"] []]; Ret].
 Proof. reflexivity. Qed.
+
+(* who changes the running set, and which entry points the controller has: addOperatorLocked and removeOperatorLocked are
+   the modelled writers (SetOperator is the test-only setter of operator_controller.go, "only used for test"); a new writer -
+   an admin "cancel all", a recovery path - has to cancel, bury and record under the lock like they do, and a new
+   exported method is an entry point neither the driver nor the model knows *)
+Lemma running_set_writers_ok : running_set_writers = ["addOperatorLocked"; "removeOperatorLocked"; "SetOperator"].
+Proof. reflexivity. Qed.
+Lemma controller_entry_points_ok : controller_entry_points =
+  ["AddOperator"; "AddWaitingOperator"; "Ctx"; "Dispatch"; "ExceedStoreLimit"; "GetCluster"; "GetFastOpInfluence"; "GetHistory"; "GetLeaderSchedulePolicy"; "GetOpInfluence"; "GetOperator"; "GetOperatorStatus"; "GetOperators"; "GetWaitingOperators"; "OperatorCount"; "PromoteWaitingOperator"; "PruneHistory"; "PushOperators"; "RemoveOperator"; "SendScheduleCommand"; "SetOperator"].
+Proof. reflexivity. Qed.
